@@ -439,6 +439,19 @@ func newOpenMessage(asn uint32, holdTime time.Duration, bgpID uint32,
 			allCaps = append(allCaps, c)
 		}
 	}
+	// every capability, the parameter that carries them and the optional
+	// parameters field each have a one-octet length
+	capsLen := 0
+	for _, c := range allCaps {
+		if len(c.Value) > math.MaxUint8 {
+			return nil, fmt.Errorf("capability %d value exceeds %d bytes",
+				c.Code, math.MaxUint8)
+		}
+		capsLen += 2 + len(c.Value)
+	}
+	if capsLen+2 > math.MaxUint8 {
+		return nil, errors.New("capabilities do not fit in an open message")
+	}
 	o := &openMessage{
 		version:  4,
 		holdTime: uint16(holdTime.Truncate(time.Second).Seconds()),
